@@ -243,7 +243,9 @@ def newFbClient (s : Screen) (w h bpp : Int) (tok : Nat) (c : Client) : Client :
   { c1 with
     xlate := if bpp != s.bpp then (bpp, c.fmt) else c.xlate,
     base := { c.base with M := Region.rect 0 0 w h, C := Region.empty, dx := 0, dy := 0 },
-    pending := if c.useNewFBSize then true else c.pending }
+    -- `pendingForAll` is regenerated from main.c (T0): with fixes/C16-late-setencodings-size.diff the flag is
+    -- raised for every client, so that a viewer announcing resize support only later is still told
+    pending := if c.useNewFBSize || VncModel.Gen.C16.pendingForAll then true else c.pending }
 
 /-- rfbNewFramebuffer -/
 def newFramebuffer (st : State) (w h bpp : Int) (tok : Nat) : State :=
